@@ -330,7 +330,9 @@ pub fn run(reg: &dyn Registry, ctx: &Ctx) -> Outcome {
         let model = match extract_fn(f, n, 64, m.base.as_ref().unwrap_or(&BitVec::zero(n))) {
             Ok(m) => m,
             Err(e) => {
-                ctx.violation(&key("extract"), &format!("{}: cannot evaluate on the basis: {}", m.name, e), json!({"kind":"note"}));
+                // not a verdict about bijectivity: the map could not be evaluated (script horizon or a panic
+                // inside the call); undecided
+                ctx.machinery(&format!("{}: cannot evaluate on the basis: {}", m.name, e));
                 continue;
             }
         };
